@@ -163,6 +163,25 @@ def roles(ctx, S):
 # ----------------------------------------------------------------------------------
 # C01-R1 / C09-R1 acceptance formulas
 # ----------------------------------------------------------------------------------
+def peel_version(v):
+    """the inner NonZero `.version` field of a SlotVersion / ArchetypeVersion value -> the wrapper value
+    (`a == b` on the wrapper is the derived comparison of that one field: the same test)"""
+    if isinstance(v, tuple) and v:
+        if v[0] == "vfield" and v[2] == "version":
+            return v[1]
+        if v[0] == "load" and v[1][0] == "field" and v[1][2] == "version":
+            return ("load", v[1][1], v[2])
+    return None
+
+
+def version_pairs(x, y):
+    out = [(x, y)]
+    px, py = peel_version(x), peel_version(y)
+    if px is not None and py is not None:
+        out.append((px, py))
+    return out
+
+
 def rule_entity_resolver(ctx, R, rule="C01-R1"):
     for S in ctx.storages():
         rs = roles(ctx, S)["entity_resolver"]
@@ -225,9 +244,12 @@ def judge_entity_resolver(ctx, R, S, f, rule):
             want["bounds"] = True
             continue
         if a[0] == "cmp" and a[1] == "Eq" and truth:
-            x, y = a[2], a[3]
             kv = key_field("version")
-            if (is_slot_field(x, "version") and y == kv) or (is_slot_field(y, "version") and x == kv):
+            hit = False
+            for (x, y) in version_pairs(a[2], a[3]):
+                if (is_slot_field(x, "version") and y == kv) or (is_slot_field(y, "version") and x == kv):
+                    hit = True
+            if hit:
                 want["version"] = True
                 continue
         if free_ref is not None and a == free_ref and truth is (not free_pol):
@@ -317,7 +339,7 @@ def judge_direct_resolver(ctx, R, S, f, rule):
         if a[0] == "cmp" and a[1] == "Lt" and truth and same_index(a[2], kidx) and a[3] == sf("len"):
             want["bounds"] = True
             continue
-        if a[0] == "cmp" and a[1] == "Eq" and truth and {a[2], a[3]} == {key_field("version"), sf("version")}:
+        if a[0] == "cmp" and a[1] == "Eq" and truth and any({strip_epochs(x_), strip_epochs(y_)} == {strip_epochs(key_field("version")), strip_epochs(sf("version"))} for (x_, y_) in version_pairs(a[2], a[3])):
             want["version"] = True
             continue
         extra.append((a, truth))
